@@ -79,6 +79,7 @@ Definition entry (sel : Z) (toks : list Z) : list Z :=
   | 103 => law_entry law_sums toks
   | 104 => law_entry law_caps toks
   | 105 => law_entry law_delete toks
+  | 107 => law_entry law_delete_alloc toks
   | 106 => match run_dec (let* h := dHistory in let* vs := dList dZ in let* rd := dZ in ret (h, vs, rd)) toks with
            | Some (c, q, rs, vs, rd) => eBool (law_capacity c q rs vs rd)
            | None => bad_input
